@@ -3,16 +3,23 @@ import PetgraphModel.Model.Graph6
 import PetgraphModel.Model.Dot
 import PetgraphModel.Spec.Graph6
 import PetgraphModel.Spec.Dot
+import PetgraphModel.Model.C18Decode
+import PetgraphModel.Model.C18Views
+import PetgraphModel.Driver.C18Checks
 import Std.Data.HashSet
 import Std.Data.HashMap
 /-
 C18 driver.  Protocol (harness/src/c18.rs):
 
-  case <k> g6 <family> n=<n> m=<m> simple=<0|1>
+  case <k> g6 <family> n=<n> m=<m> simple=<0|1> ovf=<0|1> dbg=<0|1>      (build profile of the harness, see `DState`)
+  case <k> g6x <kind of damage> n=<n> len=<l> ovf=<0|1> dbg=<0|1>
   truth n=<n> simple=<0|1> edges=<a-b,…>            the abstract graph on labels 0..n (by construction)
   enc <type> labels=<…> ix=<…> bound=<w>  => <graph6 string | panic>
         labels = node weights in `node_identifiers()` order, ix = their node indices, bound = `node_bound()`
-  dec <raw|type> <graph6 string>  => order=<n> [nodes=<…> m=<edge_count>] edges=<a-b,…> | panic
+  dec <raw|type+index width> <graph6 string>  => order=<n> [nodes=<…> m=<edge_count>] edges=<a-b,…> | panic
+        a VALID string (the driver checks that: `validB`); type = graph8/16/32/64, stable16, map32, matrix16, csr32
+  decx <raw|type+index width> <code points of an ARBITRARY string, `-` = empty>  => the same answers
+        the malformed-input stream: truncated strings, bytes < 63 or > 126, wrong lengths, long header forms, …
 
   case <k> dot <type> <dir|undir> w=<weight kind>
   w <id> <r0>|…|<r7>                                renderings of a weight: {} {:#} {:?} {:#?} {:x} {:#x} {:X} {:#X}
@@ -22,7 +29,15 @@ C18 driver.  Protocol (harness/src/c18.rs):
   dot cfg=<Config,…> kind=<0..3> alt=<0|1> spec=<id> attrs=<0|1>  => <code points of the text | panic>
 
 Exact part: the mirror models `G6.encode` (through `G6.adjMatrix`/`G6.isAdjacent` for the bitmap types),
-`G6.decode`, `Dot.dot`.  Spec-level judge: `Spec.Graph6.graph6` on the abstract graph in node-iteration
+`G6.decode` behind the guard `G6.decodePanics` (= `G6.decodeGuarded`, proved equal to `G6.decode`; a huge claimed order is
+never expanded), for decoded orders ≤ 24 the REPLAY of the type's `from_graph6_string` on its storage model
+(`G6V.fromGraph6*`, observed through the C06 table), and `Dot.dot`.
+
+Run-time checks of the theorems' hypotheses (`Driver/C18Checks.lean`, `C18_*_check` in `Theorems/C18.lean`): the `truth`
+line is a simple graph; orders ≤ 258047; bitmap indices below the width; `dec` strings are valid graph6 strings; the
+`iter` line lists the graph of the `graph` line; getter strings are `a_list` fragments.  A `dot` line is ACCEPTED iff the
+text equals the printer model's text for a view that passed those checks (`dotAcceptB`, sound by `C18_dot_accept_sound`);
+the statement-comparison code `judgeDot` only classifies a text that DIFFERS (MODELDIFF vs SPECFAIL).  Spec-level judge: `Spec.Graph6.graph6` on the abstract graph in node-iteration
 order; for a decoded graph: nodes `0..n`, distinct edges `a < b < n`, and its spec encoding is the input
 string; for Dot: `Spec.Dot.parse` of the implementation's text must yield the header the edge type asks
 for, node statements = the node indices, edge statements = the edges (as a multiset, unordered pairs for
@@ -37,6 +52,10 @@ structure DState where
   simple : Bool := true
   truthEdges : List (Nat × Nat) := []
   truthSet : Std.HashSet (Nat × Nat) := {}
+  /-- the build profile of the harness, from the case line: `ovf=1` arithmetic overflow panics (debug profile), `ovf=0` it
+  wraps (release profile); `dbg=1` `debug_assert!` is compiled in -/
+  checked : Bool := true
+  dbg : Bool := true
   -- dot
   weights : Array (Array (Option (List Char))) := #[]
   directed : Bool := true
@@ -60,8 +79,6 @@ def field (req : List String) (k : String) : String :=
   | some w => (kv w).2
   | none => ""
 
-def normPair (a b : Nat) : Nat × Nat := if a ≤ b then (a, b) else (b, a)
-
 /-- `a-b,c-d` -/
 def parsePairs (s : String) : List (Nat × Nat) :=
   if s == "-" || s == "" then [] else
@@ -81,6 +98,16 @@ def charsOfNats (l : List Nat) : List Char := l.map Char.ofNat
 
 /-! ### graph6 -/
 
+/-- the bitmap types read the adjacency through `adjacency_matrix` / `is_adjacent`: width and edges by node index -/
+def bitmapInput (d : DState) (ty : String) (labels ix : Array Nat) (bound : Nat) : Nat × List (Nat × Nat) :=
+  let n := labels.size
+  let w := if ty == "stable" then bound else n
+  let ixOf : Std.HashMap Nat Nat :=
+    (List.range n).foldl (fun m p => m.insert (labels.getD p 0) (ix.getD p 0)) {}
+  (w, d.truthEdges.map fun e => (ixOf.getD e.1 0, ixOf.getD e.2 0))
+
+def isBitmapType (ty : String) : Bool := ty == "graph" || ty == "stable" || ty == "csr"
+
 def encStep (d : DState) (ty : String) (req : List String) (impl : String) : String :=
   let labels := (parseNats (field req "labels")).toArray
   let ix := (parseNats (field req "ix")).toArray
@@ -88,13 +115,17 @@ def encStep (d : DState) (ty : String) (req : List String) (impl : String) : Str
   let n := labels.size
   let adjT : Nat → Nat → Bool := fun p q =>
     d.truthSet.contains (normPair (labels.getD p 0) (labels.getD q 0))
+  let (w, es) := bitmapInput d ty labels ix bound
+  -- run-time checks of the hypotheses (`C18_order_check`, `C18_bitmap_range_check`)
+  if !orderOkB n then s!"SPECFAIL generator left the proved range: {n} nodes (graph6 orders above 258047 are outside the property)"
+  else if d.simple && labels.toList.mergeSort (· ≤ ·) != List.range d.n then
+    s!"SPECFAIL node iteration {showNats labels.toList} is not the node set 0..{d.n}"
+  else if d.simple && isBitmapType ty && !bitmapRangeB w es ix.toList then
+    s!"SPECFAIL side condition node-index-below-bitmap-width does not hold: to_index of an iterated node or edge endpoint is not below {w} (ix={showNats ix.toList})"
+  else
   -- the mirror model: bitmap types read the adjacency through `adjacency_matrix` / `is_adjacent`
   let modelAdj : Option (Nat → Nat → Bool) :=
-    if ty == "graph" || ty == "stable" || ty == "csr" then
-      let w := if ty == "stable" then bound else n
-      let ixOf : Std.HashMap Nat Nat :=
-        (List.range n).foldl (fun m p => m.insert (labels.getD p 0) (ix.getD p 0)) {}
-      let es := d.truthEdges.map fun e => (ixOf.getD e.1 0, ixOf.getD e.2 0)
+    if isBitmapType ty then
       match G6.adjMatrix w es with
       | none => none
       | some m => some fun p q => G6.isAdjacent w m (ix.getD p 0) (ix.getD q 0)
@@ -108,8 +139,6 @@ def encStep (d : DState) (ty : String) (req : List String) (impl : String) : Str
       | some cs => String.ofList cs
   let spec : Option String :=
     if !d.simple then none          -- not a simple graph: outside the property, mirror comparison only
-    else if labels.toList.mergeSort (· ≤ ·) != List.range d.n then
-      some s!"node iteration {showNats labels.toList} is not the node set 0..{d.n}"
     else if impl == "panic" then some "graph6_string panicked on a simple graph"
     else
       let want := String.ofList (charsOfNats (Spec.Graph6.graph6 n adjT))
@@ -117,25 +146,96 @@ def encStep (d : DState) (ty : String) (req : List String) (impl : String) : Str
       else some s!"graph6_string [{impl}] is not the graph6 encoding [{want}] of the graph in node-iteration order"
   verdict spec model impl
 
-def decStep (ty : String) (s : String) (impl : String) : String :=
-  let raw := ty == "raw"
+/-- `graph32` → (`graph`, 32) -/
+def splitType (t : String) : String × Nat :=
+  let cs := t.toList
+  let name := cs.takeWhile (fun c => !c.isDigit)
+  let bits := cs.dropWhile (fun c => !c.isDigit)
+  (String.ofList name, (String.ofList bits).toNat?.getD 32)
+
+/-- the edge list of a graph as a hash set of normalised pairs -/
+def pairSet (es : List (Nat × Nat)) : Std.HashSet (Nat × Nat) :=
+  es.foldl (fun m e => m.insert (normPair e.1 e.2)) {}
+
+/-- the format's string of the graph `(order, es)` -/
+def canonChars (order : Nat) (es : List (Nat × Nat)) : List Char :=
+  let set := pairSet es
+  charsOfNats (Spec.Graph6.graph6 order fun p q => set.contains (normPair p q))
+
+def canonString (order : Nat) (es : List (Nat × Nat)) : String := String.ofList (canonChars order es)
+
+/-- the string is a VALID graph6 string of a supported order: the decoder model accepts it and the format's encoding of
+what it answers is the string itself -/
+def validB (s : List Char) : Bool :=
+  match G6.decodeGuarded s with
+  | none => false
+  | some (order, es) => orderOkB order && canonChars order es == s
+
+/-- what the harness observes of a decoded graph (`dec_obs`), read off the C06 table of a storage-model state -/
+def obsOfTable (t : Visit.Table) (half : Bool) : String :=
+  let ids := t.ids.getD []
+  let toIx (a : Nat) : Nat := (t.toIx.lookup a).getD 0
+  let es := (t.erefs.getD []).filterMap fun e =>
+    let (a, b) := (toIx e.src, toIx e.tgt)
+    if half && decide (b < a) then none else some (normPair a b)
+  s!"order={ids.length} nodes={showNats (ids.map toIx)} m={(t.edgeCount.getD 0)} edges={showPairs (es.mergeSort pairLe)}"
+
+/-- the replay of `from_graph6_string` on the type's storage model (`Model/C18Views.lean`), observed like the harness
+observes the real graph; `none` = no storage model for this type name -/
+def replay (name : String) (bits : Nat) (dbg : Bool) (s : List Char) : Option String :=
+  let maxIx := 2 ^ bits - 1
+  let obs {σ : Type} (r : Option σ) (tbl : σ → Visit.Table) (half : Bool) : String :=
+    match r with
+    | none => "panic"
+    | some st => obsOfTable (tbl st) half
+  match name with
+  | "graph" => some (obs (G6V.fromGraph6Graph maxIx s) Visit.graphTable false)
+  | "stable" => some (obs (G6V.fromGraph6Stable maxIx (bits == 64) dbg s) Visit.stableTable false)
+  | "map" => some (obs (G6V.fromGraph6GraphMap s) Visit.graphMapTable false)
+  | "matrix" => some (obs (G6V.fromGraph6Matrix maxIx s) Visit.matrixTable false)
+  | "csr" => some (obs (G6V.fromGraph6Csr (if bits == 64 then 0 else 2 ^ bits) 32 dbg s) Visit.csrTable true)
+  | _ => none
+
+/-- orders up to which the storage models are replayed (list-based models: quadratic in the edge count) -/
+def replayMax : Nat := 24
+
+/-- `valid`: the line claims a valid string (`dec`); otherwise (`decx`) any string -/
+def decStep (d : DState) (valid : Bool) (tyw : String) (cs : List Char) (impl : String) : String :=
+  let raw := tyw == "raw"
+  let (name, bits) := splitType tyw
+  -- the decoder model of the harness's build profile (`C18_decode_profile`); the replays below run the checked decoder, so
+  -- they are used only where the two agree: no byte below 63 (`C18_decode_release_agrees`)
+  let decoded := G6.decodeProfile d.checked cs
+  let agree := d.checked || !(cs.any fun c => decide (c.toNat < 63))
+  let isValid := validB cs
+  if valid && !isValid then
+    "SPECFAIL generator left the proved range: the string of a dec line is not a valid graph6 string of order ≤ 258047"
+  else if valid && !raw && !(match decoded with | some (order, es) => fitsB name bits order es.length | none => true) then
+    s!"SPECFAIL generator left the proved range: the index type of {tyw} has no room for the decoded graph"
+  else
   let model : String :=
-    match G6.decode s.toList with
+    match decoded with
     | none => "panic"
     | some (order, es) =>
       if raw then s!"order={order} edges={showPairs es}"
       else
-        let sorted := (es.map fun e => normPair e.1 e.2).mergeSort pairLe
-        s!"order={order} nodes={showNats (List.range order)} m={es.length} edges={showPairs sorted}"
+        let small : Option String := if order ≤ replayMax && agree then replay name bits d.dbg cs else none
+        match small with
+        | some o => o
+        | none =>
+          let sorted := (es.map fun e => normPair e.1 e.2).mergeSort pairLe
+          s!"order={order} nodes={showNats (List.range order)} m={es.length} edges={showPairs sorted}"
+  let s := String.ofList cs
   let spec : Option String :=
-    if impl == "panic" then some "decoding a valid graph6 string panicked"
+    if !isValid then none       -- a malformed string: outside the property, mirror comparison only
+    else if impl == "panic" then some "decoding a valid graph6 string panicked"
     else
       let w := splitWords impl
       match (field w "order").toNat? with
       | none => some s!"unreadable answer [{impl}]"
       | some order =>
         let es := parsePairs (field w "edges")
-        let set : Std.HashSet (Nat × Nat) := es.foldl (fun m e => m.insert (normPair e.1 e.2)) {}
+        let set := pairSet es
         if es.any (fun e => e.1 == e.2 || e.1 ≥ order || e.2 ≥ order) then
           some s!"decoded edge list has a loop or an endpoint outside 0..{order}"
         else if set.size != es.length then some "decoded edge list repeats an edge"
@@ -144,10 +244,19 @@ def decStep (ty : String) (s : String) (impl : String) : String :=
         else if !raw && (field w "m").toNat? != some es.length then
           some s!"edge_count {field w "m"} but {es.length} edges listed"
         else
-          let adj : Nat → Nat → Bool := fun p q => set.contains (normPair p q)
-          let want := String.ofList (charsOfNats (Spec.Graph6.graph6 order adj))
-          if want == s then none
-          else some s!"decoded graph (order {order}, {es.length} edges) is not the graph the string encodes"
+          -- the string is valid (checked above): it is the format's encoding of what the decoder MODEL answers, so an
+          -- answer with the same order and the same set of pairs is the graph the string encodes; anything else is
+          -- re-encoded by the specification and compared with the string
+          let norm (l : List (Nat × Nat)) := (l.map fun e => normPair e.1 e.2).mergeSort pairLe
+          let sameAsModel : Bool :=
+            match decoded with
+            | some (mo, mes) => order == mo && norm es == norm mes
+            | none => false
+          if sameAsModel then none
+          else
+            let want := canonString order es
+            if want == s then none
+            else some s!"decoded graph (order {order}, {es.length} edges) is not the graph the string encodes"
   verdict spec model impl
 
 /-! ### Dot -/
@@ -175,13 +284,6 @@ def parseConfig (s : String) : Option Dot.Config :=
 def kindOf (k : Nat) : Dot.FmtKind :=
   match k with
   | 0 => .display | 1 => .debug | 2 => .lowerHex | _ => .upperHex
-
-def kindIdx : Dot.FmtKind → Nat
-  | .display => 0 | .debug => 1 | .lowerHex => 2 | .upperHex => 3
-
-def weightOf (d : DState) (wid : Nat) : Dot.Weight :=
-  let row := d.weights.getD wid #[]
-  ⟨fun k a => ((row.getD (2 * kindIdx k + (if a then 1 else 0)) none).getD [])⟩
 
 def colon (s : String) : List String := s.splitOn ":"
 
@@ -231,7 +333,7 @@ def judgeDot (d : DState) (configs : List Dot.Config) (fmt : Dot.Fmt) (text : Li
                 (if has .NodeNoLabel then [.absent] else []) ++
                 (if has .NodeIndexLabel then [.number (some idx)] else []) ++
                 (if !has .NodeNoLabel && !has .NodeIndexLabel then
-                  [.text ((weightOf d wid).render fmt.kind fmt.alternate)] else [])
+                  [.text ((weightOf d.weights wid).render fmt.kind fmt.alternate)] else [])
               wants.any (labelOk at')
             match nodes.find? (fun x => !nodeLabelOk x) with
             | some (a, _) => some s!"label of node {String.ofList a} is not what the configuration and the weight determine"
@@ -251,7 +353,7 @@ def judgeDot (d : DState) (configs : List Dot.Config) (fmt : Dot.Fmt) (text : Li
                      | _ => ['\x00', 'n', 'o', ' ', 'l', 'a', 'b', 'e', 'l']
                    else [])
                 let truthKeys : List ((Nat × Nat) × List Char) := d.te.map fun (a, b, wid) =>
-                  (norm a b, if textMode then dropLastNl ((weightOf d wid).render fmt.kind fmt.alternate) else [])
+                  (norm a b, if textMode then dropLastNl ((weightOf d.weights wid).render fmt.kind fmt.alternate) else [])
                 let rest := truthKeys.foldl (fun (acc : Option (List ((Nat × Nat) × List Char))) k =>
                   match acc with
                   | none => none
@@ -270,32 +372,43 @@ def dotStep (d : DState) (req : List String) (impl : String) : String :=
   let configs := if cfgField == "-" then [] else (cfgField.splitOn ",").filterMap parseConfig
   let fmt : Dot.Fmt := ⟨kindOf ((field req "kind").toNat?.getD 0), field req "alt" == "1"⟩
   let withAttrs := field req "attrs" == "1"
-  let view : Dot.GraphView := {
-    directed := d.directed
-    nodes := d.itNodes.map fun (i, wid, a) => { index := i, weight := weightOf d wid, attr := if withAttrs then a else [] }
-    edges := d.itEdges.map fun (s, t, wid, a) =>
-      { source := s, target := t, weight := weightOf d wid, attr := if withAttrs then a else [] } }
-  let model := Dot.dot configs fmt view
-  if impl == "panic" then "SPECFAIL formatting panicked"
+  let view := viewOf d.weights d.directed d.itNodes d.itEdges withAttrs
+  -- run-time checks of the hypotheses (`C18_view_check`, `C18_getter_check`)
+  if !nodesMatchB d.itNodes d.tn then
+    "SPECFAIL side condition node_references-list-the-graph does not hold: the (index, weight) pairs of the iter line are not those of the graph line"
+  else if !edgesMatchB d.directed d.itEdges d.te then
+    "SPECFAIL side condition edge_references-list-the-graph does not hold: the (source, target, weight) triples of the iter line are not those of the graph line"
+  else if !getterOkB view then
+    "SPECFAIL generator left the proved range: an attribute-getter string is not an a_list fragment"
+  else if impl == "panic" then "SPECFAIL formatting panicked"
   else
     let text := parseCps "," impl
-    match judgeDot d configs fmt text with
-    | some why => s!"SPECFAIL {why}"
-    | none =>
-      if model == text then "ok"
-      else
+    -- accepted iff the text is the printer's image of the checked view (`C18_dot_accept_sound`)
+    if dotAcceptB d.weights d.directed d.tn d.te d.itNodes d.itEdges withAttrs configs fmt text then "ok"
+    else
+      -- a text that differs: the statement comparison only CLASSIFIES it
+      let model := Dot.dot configs fmt view
+      match judgeDot d configs fmt text with
+      | some why => s!"SPECFAIL {why}"
+      | none =>
         let k := firstDiff model text 0
         s!"MODELDIFF first difference at char {k} model=[{showCps ((model.drop (k - 10)).take 40)}] impl=[{showCps ((text.drop (k - 10)).take 40)}]"
 
 def step (d : DState) (req : List String) (impl : String) : DState × String :=
   match req with
-  | "case" :: k :: _ => ({}, s!"case {k}")
+  | "case" :: k :: _ => ({ checked := field req "ovf" != "0", dbg := field req "dbg" != "0" }, s!"case {k}")
   | "truth" :: _ =>
     let es := parsePairs (field req "edges")
-    ({ d with n := (field req "n").toNat?.getD 0, simple := field req "simple" == "1", truthEdges := es,
-              truthSet := es.foldl (fun m e => m.insert (normPair e.1 e.2)) {} }, "ok")
+    let n := (field req "n").toNat?.getD 0
+    let simple := field req "simple" == "1"
+    let d' := { d with n := n, simple := simple, truthEdges := es, truthSet := pairSet es }
+    -- run-time check (`C18_truth_simple_check`): a graph announced as simple is one
+    if simple && !truthSimpleB n es then
+      (d', "SPECFAIL generator left the proved range: the truth line is not a simple graph (pairs a < b < n, strictly ascending in the format's order)")
+    else (d', "ok")
   | "enc" :: ty :: _ => (d, encStep d ty req impl)
-  | ["dec", ty, s] => (d, decStep ty s impl)
+  | ["dec", ty, s] => (d, decStep d true ty s.toList impl)
+  | ["decx", ty, cps] => (d, decStep d false ty (parseCps "," cps) impl)
   | ["w", id, table] =>
     let row : Array (Option (List Char)) :=
       ((table.splitOn "|").map fun r => if r == "x" then none else some (parseCps "," r)).toArray
